@@ -198,6 +198,24 @@ def check_read_post(R, F, S):
                 end = agg[1][0]
                 ok1, unmet = e5.prove_at(an, idx[0][0], None, eq(end, add(lin('L2'), lin('L3'))) + [le(end, lin('len:(*_1)'))])
                 good, det = ok1, unmet
+    if not good:
+        # the same computation as one Option chain: cursor.checked_add(rdlength).and_then(|end| message.get(..end)).ok_or(..)
+        # Some(buf) <=> end = cursor + rdlength did not overflow and end <= len(message), buf = message[..end]
+        from qv import origins
+        lv = origins.trace(pp, 0, [('down', 'Ok'), ('f', 0)])
+        if len(lv) == 1 and lv[0][0] == 'call' and callee_name(lv[0][2]) == 'std::option::Option::<T>::and_then' and lv[0][3] == [('down', 'Some'), ('f', 0)]:
+            t_ = lv[0][2]
+            recv = paths.show_operand(pp, t_['args'][0])
+            built = [lf for lf in (origins.trace(pp, t_['args'][1]['pl']['l'], []) if is_place(t_['args'][1]) else []) if lf[0] == 'rv' and lf[3].get('k') == 'agg' and lf[3].get('ak') == 'closure']
+            inner = F.fns.get(built[0][3]['def']) if len(built) == 1 else None
+            caps = [paths.show_operand(pp, o) for o in built[0][3]['ops']] if built else []
+            if inner is not None and re.match(r'^num::checked_add\((arg2,cast\(arg3\)|cast\(arg3\),arg2)\)$', recv):
+                gets = [(bb, tt) for bb, tt in inner.calls() if callee_name(tt) == 'core::slice::<impl [T]>::get']
+                if len(gets) == 1 and len([1 for bb, tt in inner.calls()]) == 1 and gets[0][1]['dest']['l'] == 0 and not gets[0][1]['dest']['p']:
+                    ga = [paths.show_operand(inner, a) for a in gets[0][1]['args']]
+                    m_ = re.match(r'^arg1\.(\d+)$', ga[0])
+                    good = m_ is not None and int(m_.group(1)) < len(caps) and caps[int(m_.group(1))] in ('arg1', 'reborrow(arg1)') and ga[1] in ('ops::RangeTo{arg2}', 'RangeTo{arg2}')
+                    det = 'the Option chain does not slice message[..cursor + rdlength]' if not good else ''
     R.require(good, 'read-post', RD + 'helpers::prepare_to_read_rdata|post', pp.where(), 'Ok(&message[..end]) with end = cursor + rdlength <= len(message)', 'prepare_to_read_rdata summary does not hold: ' + det)
     R.floor('read-post', 2)
 
